@@ -203,7 +203,7 @@ func c10Cases(c runCfg) ([]*scratch.Pkg, []string, map[string]interface{}) {
 			for _, k := range perm {
 				keys = append(keys, c10Codes[k])
 			}
-			if rng.Intn(2) == 0 {
+			if rng.Intn(2) == 0 || (pi%6 == 5 && oi == 0) {
 				keys = append(keys, "default")
 			}
 			sort.Strings(keys) // the generator walks the responses in sorted key order
@@ -223,8 +223,13 @@ func c10Cases(c runCfg) ([]*scratch.Pkg, []string, map[string]interface{}) {
 					}
 					r, pl = dialect.Response{Status: key, Ref: cm.name}, cm.pl
 					stats["component-default"]++
-				case key != "default" && rng.Intn(3) == 0:
+				case key != "default" && (rng.Intn(3) == 0 || (pi%6 == 5 && oi == 1 && len(plans) == 0)):
 					cm := codeComps[rng.Intn(len(codeComps))]
+					if pi%6 == 5 && oi == 1 && len(plans) == 0 {
+						// every sixth document uses one component both ways, whatever the seed: under a status here (directly
+						// or through its alias) and as the default response of the first operation
+						cm = codeComps[[]int{0, 2}[pi/6%2]]
+					}
 					if usedComp[cm.pl.gotype] {
 						// (one component response twice in an operation is refused with an error)
 						cm = codeComps[(rng.Intn(len(codeComps)))]
